@@ -25,6 +25,37 @@ ASSUMPTIONS = ['undistorted WCS: a 1-arcsec northward step fixes the local scale
 HELPER = 'regions._utils.wcs_helpers'
 
 
+def _offset_by_idiom(off, offq):
+    """SkyCoord(*offset_by(lon=<lon of skycoord>, lat=<lat of skycoord>, posang=0, distance=offset), frame=<the frame object
+    of skycoord>): what SkyCoord.directional_offset_by does itself (trusted: astropy's own definition)."""
+    from ..vg import walk_terms
+    if not (isinstance(off, App) and off.name.endswith('SkyCoord')):
+        return False
+    kw = {a.items[0].v: a.items[1] for a in off.args if isinstance(a, Tup) and len(a.items) == 2
+          and isinstance(a.items[0], Const)}
+    fr = kw.get('frame')
+    frs = show(fr, 200) if fr is not None else ''
+    if frs not in ('attr:frame(skycoord)', 'skycoord') and not frs.startswith('apply(attr:replicate_without_data(skycoord)'):
+        return False
+    obs = [x for x in walk_terms(off) if isinstance(x, App) and x.name.endswith('offset_by')]
+    if len({show(x, 2000) for x in obs}) != 1:
+        return False
+    okw = {a.items[0].v: a.items[1] for a in obs[0].args if isinstance(a, Tup) and len(a.items) == 2
+           and isinstance(a.items[0], Const)}
+    if set(okw) != {'lon', 'lat', 'posang', 'distance'}:
+        return False
+    pa, dist = unq(okw['posang']), unq(okw['distance'])
+    if not (is_num(pa) and pa == 0 and is_num(dist) and num_equal(dist, offq)):
+        return False
+    lon, lat = show(okw['lon'], 300), show(okw['lat'], 300)
+    if not (lon.startswith('attr:lon(') and lat.startswith('attr:lat(') and 'skycoord' in lon and 'skycoord' in lat):
+        return False
+    # the two positional arguments are the two results of that one offset_by call, in order
+    pos = [a for a in off.args if not (isinstance(a, Tup) and len(a.items) == 2 and isinstance(a.items[0], Const))]
+    return len(pos) == 2 and all(isinstance(p_, App) and p_.name == 'getitem' and p_.args[1] == k
+                                 for k, p_ in enumerate(pos))
+
+
 def r1(ctx):
     m = ctx.model
     fi = m.func(HELPER, 'pixel_scale_angle_at_skycoord')
@@ -51,7 +82,11 @@ def r1(ctx):
             and len(off.args) >= 3 and is_num(off.args[1]) and off.args[1] == 0 and is_num(unq(off.args[2])) \
             and num_equal(unq(off.args[2]), offq)
         if not ok_off:
-            probs.append(f'offset point is {show(off, 200)}; expected skycoord.directional_offset_by(0 [north], offset)')
+            ok_off = _offset_by_idiom(off, offq)
+        if not ok_off:
+            probs.append(f'offset point is {show(off, 200)}; expected skycoord.directional_offset_by(0 [north], offset) (or the '
+                         'same point built with offset_by() from the coordinate\'s own lon/lat in the coordinate\'s own frame '
+                         'object — a frame *name* drops equinox/obstime)')
         X1, Y1, X2, Y2 = sym('X1'), sym('Y1'), sym('X2'), sym('Y2')
         dx, dy = X2 - X1, Y2 - Y1
         want_scale = offq / (sp.sqrt(dx ** 2 + dy ** 2) * PIX)
